@@ -147,6 +147,58 @@ let voronoi ulps ordered envtoks secs =
          if f = [] then "OK" else "FAIL " ^ codes f)
   end
 
+(* mode H: the quad-edge hand model (QuadEdgeDefs.v) run beside the real objects (harness/c16_quadedge.cpp).
+     H <F|E> op ; op ; ..    op = m <o> <d> | s <q>.<r> <q>.<r> | c <q>.<r> <q>.<r> | w <q>.<r> | x <q>.<r>
+   E: history from the empty deque; F: the history is prefixed by init_subdiv 1 (-20) 22 (frame of Envelope(0,2,0,2)).
+   -> "<dump> | legal=<0|1> inv=<0|1> orgc=<0|1>" with the dump of the harness, "BADREF <op index>" or "?" *)
+exception Qe_stop of string
+let qe_history full toks =
+  let r4 i = match i with 0 -> R0 | 1 -> R1 | 2 -> R2 | _ -> R3 in
+  let r4i r = match r with R0 -> 0 | R1 -> 1 | R2 -> 2 | R3 -> 3 in
+  let int_tok t = match int_of_string_opt t with
+    | Some v when t <> "" && (match t.[0] with '0' .. '9' | '-' | '+' -> true | _ -> false) && not (String.contains t '_') -> v
+    | _ -> raise (Qe_stop "?") in
+  let ops_toks = List.filter (fun o -> o <> []) (split_on ";" toks) in
+  let pre = if full then Xc16.init_subdiv (z_of_int 1) (z_of_int (-20)) (z_of_int 22) else [] in
+  let st = ref (Xc16.run Xc16.empty pre) in
+  let hist = ref [] in
+  let edge k t =
+    match String.index_opt t '.' with
+    | None -> raise (Qe_stop "?")
+    | Some i ->
+      let q = int_tok (String.sub t 0 i) and r = int_tok (String.sub t (i + 1) (String.length t - i - 1)) in
+      if q < 0 || r < 0 then raise (Qe_stop "?");
+      if q >= int_of_nat (!st).nq || r > 3 then raise (Qe_stop ("BADREF " ^ string_of_int k));
+      (nat_of_int q, r4 r) in
+  try
+    List.iteri (fun k o ->
+      let op = match o with
+        | ["m"; a; b] -> MakeEdge (z_of_int (int_tok a), z_of_int (int_tok b))
+        | ["s"; a; b] -> let ea = edge k a in let eb = edge k b in Splice (ea, eb)
+        | ["c"; a; b] -> let ea = edge k a in let eb = edge k b in Connect (ea, eb)
+        | ["w"; a] -> Swap (edge k a)
+        | ["x"; a] -> Remove (edge k a)
+        | _ -> raise (Qe_stop "?") in
+      hist := op :: !hist;
+      st := Xc16.step !st op) ops_toks;
+    let ops = pre @ List.rev !hist in
+    let fin = Xc16.run Xc16.empty ops in
+    let n = int_of_nat fin.nq in
+    let b = Buffer.create 256 in
+    let show (q, r) = Printf.sprintf "%d.%d" (int_of_nat q) (r4i r) in
+    Buffer.add_string b (Printf.sprintf "n=%d" n);
+    for q = 0 to n - 1 do
+      List.iter (fun r ->
+        let e = (nat_of_int q, r) in
+        Buffer.add_string b (Printf.sprintf " %s%s>%s^%s@%s" (show e) (if Xc16.is_dead fin e then "!" else "")
+                               (show (Xc16.oNext fin e)) (show (Xc16.rot e)) (string_of_z (Xc16.orig fin e)))) [R0; R1; R2; R3]
+    done;
+    let bit v = if v then 1 else 0 in
+    Buffer.add_string b (Printf.sprintf " | legal=%d inv=%d orgc=%d" (bit (Xc16.legal_from Xc16.empty ops))
+                           (bit (Xc16.inv_b fin)) (bit (Xc16.org_consistent_b fin)));
+    Buffer.contents b
+  with Qe_stop m -> m
+
 let () =
   try while true do
     let line = input_line stdin in
@@ -166,6 +218,8 @@ let () =
         let qs = band_quads (sort_pts (pts_of rest)) in
         print_endline (Printf.sprintf "%d%s" (List.length qs)
           (match qs with (((a, b), c), d) :: _ -> " " ^ String.concat ";" (List.map show_pt [a; b; c; d]) | [] -> ""))
+      | "H" :: "F" :: rest -> print_endline (qe_history true rest)
+      | "H" :: "E" :: rest -> print_endline (qe_history false rest)
       | "B" :: rest ->
         (match pts_of rest with
          | [q; p; r; t] -> print_endline (Printf.sprintf "%d %d %s %s" (int_of_z (robust_grid q p r t)) (int_of_z (exact_loc q p r t))
